@@ -1453,9 +1453,9 @@ Section SkeletonPermutation.
     clear - F1 P2. revert l F1. induction P2 as [|x a b _ IH|x y a|a b c _ IH1 _ IH2]; intros l F.
     - inversion F; subst. exists []. split; constructor.
     - inversion F as [|x0 ? l0 ? Hx Hl]; subst. destruct (IH l0 Hl) as (m & P & Fm).
-      exists (x0 :: m). split; [now constructor|now constructor].
+      exists (x0 :: m). split; [now constructor|constructor; [exact Hx|exact Fm]].
     - inversion F as [|y0 ? l0 ? Hy Hl]; subst. inversion Hl as [|x0 ? l1 ? Hx Hl1]; subst.
-      exists (x0 :: y0 :: l1). split; [apply perm_swap|repeat constructor; assumption].
+      exists (x0 :: y0 :: l1). split; [apply perm_swap|constructor; [exact Hx|constructor; [exact Hy|exact Hl1]]].
     - destruct (IH1 l F) as (m & P & Fm). destruct (IH2 m Fm) as (m' & P' & Fm').
       exists m'. split; [eapply Permutation_trans; eassumption|exact Fm'].
   Qed.
@@ -1487,3 +1487,9 @@ Section SkeletonPermutation.
       exists (a' ++ b'). split; [reflexivity|now apply decls_equiv_app].
   Qed.
 End SkeletonPermutation.
+
+Example ex_skeleton_permutation_nontrivial :
+  exists l l', print_skeleton o_id (from_config o_id ex_cfg) ex_doc = Ok l
+            /\ print_skeleton o_id (from_config o_id ex_cfg) (rev ex_doc) = Ok l'
+            /\ l <> l' /\ List.length l = 17%nat.
+Proof. eexists. eexists. split; [vm_compute; reflexivity|]. split; [vm_compute; reflexivity|]. split; [discriminate|reflexivity]. Qed.
